@@ -325,10 +325,90 @@ def library_after_timeout(task, col):
                            'count_reference': int(c_ref)}, [], where={'kind': 'library', 'first_call': outcome})
 
 
+def interrupted_accessors(task, col):
+    """The time limit expires INSIDE a memoising accessor of an object that outlives the limited call (the existence
+    patterns belong to the user's settings and are handed to every candidate encoder): each statement of the accessor
+    is slowed down through sys.monitoring so that the interrupt lands in the middle of it; afterwards the same object
+    must answer like an equal object that never saw a timeout."""
+    import numpy as np
+    from adsg_core.optimization.assign_enc.time_limiter import run_timeout
+    import adsg_core.optimization.assign_enc.matrix as mx
+    if not hasattr(sys, 'monitoring') or os.environ.get('VERIF_C19_NO_MONITORING'):
+        col.count('accessor_injection_unavailable')
+        return
+    mon = sys.monitoring
+    tool = 4
+    try:
+        mon.use_tool_id(tool, 'vf-c19-acc')
+    except Exception:  # noqa
+        col.count('accessor_injection_unavailable')
+        return
+    slow = {'code': None}
+
+    def cb(code, line):
+        if code is slow['code']:
+            time.sleep(.004)
+    mon.register_callback(tool, mon.events.LINE, cb)
+    n = 8
+
+    def pattern():
+        return mx.NodeExistence(src_exists=[True] * 5 + [False] * 3, tgt_exists=[True] * 6 + [False] * 2)
+    targets = [('src_exists_mask', (n,)), ('tgt_exists_mask', (n,)), ('none_exists', (n, n))]
+    try:
+        for name, args in targets:
+            fn = getattr(mx.NodeExistence, name, None)
+            if fn is None:
+                continue
+            code = fn.__code__ if hasattr(fn, '__code__') else getattr(getattr(fn, 'fget', None), '__code__', None)
+            if code is None:
+                continue
+            for limit in (.006, .015, .03):
+                col.evaluations += 1
+                col.count('monitor_calls')
+                col.count('monitor_interrupted_accessor_calls')
+                obj = pattern()
+                slow['code'] = code
+                mon.set_local_events(tool, code, mon.events.LINE)
+                outcome = 'return'
+                try:
+                    run_timeout(limit, lambda: getattr(obj, name)(*args))
+                except TimeoutError:
+                    outcome = 'timeout'
+                except Exception as e:  # noqa
+                    outcome = 'exc:' + type(e).__name__
+                finally:
+                    mon.set_local_events(tool, code, 0)
+                    slow['code'] = None
+                col.count('accessor_outcome_' + outcome)
+                col.nontrivial.add('accessor|%s|%s' % (name, outcome))
+                try:
+                    after = [np.asarray(getattr(obj, nm_)(*a_)).tolist() for nm_, a_ in targets if hasattr(obj, nm_)]
+                    ref_obj = pattern()
+                    want = [np.asarray(getattr(ref_obj, nm_)(*a_)).tolist() for nm_, a_ in targets if hasattr(ref_obj, nm_)]
+                except Exception as e:  # noqa
+                    info = D.exc_info(e)
+                    col.violation('later_call_affected', {'accessor': name}, {'exc': info, 'first_call': outcome,
+                                                                              'limit': limit}, [],
+                                  where={'kind': 'accessor', 'exc': info['type']})
+                    continue
+                if after != want:
+                    col.violation('later_call_affected', {'accessor': name},
+                                  {'first_call': outcome, 'limit': limit, 'after_timeout': after, 'undisturbed': want}, [],
+                                  where={'kind': 'accessor', 'first_call': outcome})
+    finally:
+        mon.register_callback(tool, mon.events.LINE, None)
+        try:
+            mon.free_tool_id(tool)
+        except Exception:  # noqa
+            pass
+
+
 def worker(task, col):
     import adsg_core.optimization.assign_enc.time_limiter  # noqa
     if task.get('only') == 'library':
         library_after_timeout(task, col)
+        if task.get('shard', 0) % 2 == 0:
+            common.guard(col, interrupted_accessors, task, col)
         return
     rnd = gen.rng_for('C19', task['seed'], task['shard'])
     sw = task.get('switch')
